@@ -982,6 +982,24 @@ pub fn agreement_matrix(r: &mut Report, repetitions: usize, tag: &str) {
                 if res != Ok(!*dissent) && bad.len() < 6 { bad.push(format!("{}: links {} rank {}: {:?}", kind, n, pos, res)); }
             } } }
         }
+        // the multi-party step anywhere among single-party steps (before, after, between them): its dissent is found wherever it stands
+        {
+            let kp = &pool[4];
+            for (order, what) in [(vec!["pre", "a"], "after a single-party step"), (vec!["a", "pre"], "before one"), (vec!["pre", "a", "post"], "between two"), (vec!["pre", "post", "a"], "after two"), (vec!["zero", "a"], "after a threshold-0 step")] {
+                for dissent in [true, false] {
+                    cells += 1;
+                    let d = tmpdir();
+                    let ks: Vec<&in_toto::crypto::PrivateKey> = pool.iter().take(2).collect();
+                    for (i, k) in ks.iter().enumerate() { let l = if dissent && i == 1 { link("a", &[("m", 1)], &[("p", 3)]) } else { link("a", &[("m", 1)], &[("p", 2)]) }; write_link(d.path(), "a", k.key_id(), &signed_link(&l, &[k])); }
+                    for single in ["pre", "post", "zero"] { write_link(d.path(), single, kp.key_id(), &signed_link(&link(single, &[], &[("s", 1)]), &[kp])); }
+                    let steps: Vec<in_toto::models::step::Step> = order.iter().map(|n| if *n == "a" { step("a", 2, &ks, allow_all(), allow_all()) } else { step(n, if *n == "zero" { 0 } else { 1 }, &[kp], allow_all(), allow_all()) }).collect();
+                    let mut all: Vec<&in_toto::crypto::PrivateKey> = ks.clone(); all.push(kp);
+                    let lay = signed_layout(&layout(steps, vec![], &all, 30), &[&owner]);
+                    let res = no_panic(|| in_toto_verify(&lay, owner_keys(&[&owner]), d.path().to_str().unwrap(), None).is_ok());
+                    if res != Ok(!dissent) && bad.len() < 6 { bad.push(format!("multi-party step {} (order {:?}), dissent {}: {:?}", what, order, dissent, res)); }
+                }
+            }
+        }
         r.case("agreement-whatever-the-command-reported", json!({"cells": cells}), "Err exactly when the link dissents", format!("{:?}", bad), bad.is_empty());
     }
 }
